@@ -136,6 +136,31 @@ theorem C01_refund_exact {e : Env} {supi : Bytes} {u : Usage} {st : RgState} {b 
   rw [c1, debitSpec_money, c2]
   exact ⟨rfl, rfl⟩
 
+/-! ### only ONLINE_CHARGING containers are rated -/
+
+/-- containers whose quota-management indicator is absent, OFFLINE_CHARGING or QUOTA_MANAGEMENT_SUSPENDED add
+    nothing to the usage that is rated, wherever they sit among online containers -/
+theorem C01_only_online_counted (cs : List Container) : totalUsed cs = totalUsed (cs.filter isOnline) := by
+  induction cs with
+  | nil => rfl
+  | cons c r ih =>
+    by_cases h : isOnline c = true
+    · simp only [List.filter_cons, h, if_true, totalUsed, ih]
+    · simp only [List.filter_cons, h, Bool.false_eq_true, if_false, totalUsed, ih]
+
+theorem C01_only_online_rated (tariffs : List Rating.Tariff) (supi : Bytes) (u : Usage) :
+    ratedUsage tariffs supi u = ratedUsage tariffs supi { u with cs := u.cs.filter isOnline } := by
+  have ha : anyOnline (u.cs.filter isOnline) = anyOnline u.cs := by
+    unfold anyOnline
+    induction u.cs with
+    | nil => rfl
+    | cons c r ih =>
+      by_cases h : isOnline c = true
+      · simp [List.filter_cons, h]
+      · simp only [List.filter_cons, h, Bool.false_eq_true, if_false, List.any_cons, Bool.false_or, ih]
+  unfold ratedUsage
+  simp only [ha, ← C01_only_online_counted]
+
 /-! ### across outages -/
 
 /-- an operation that does not reach credit control moves the money of (supi, rg) by exactly the credit -/
